@@ -29,3 +29,5 @@ extern "C" void verif_force_boxed(int *p, const int *cp, std::shared_ptr<int> sp
 namespace verif_types { struct Base { virtual ~Base() = default; int b = 0; }; struct Derived : Base { int d = 0; }; }
 template class chaiscript::detail::Dynamic_Caster<verif_types::Base, verif_types::Derived>;
 template class chaiscript::detail::Static_Caster<verif_types::Derived, verif_types::Base>;
+// the guard a C++ function taking std::shared_ptr<T>& is called under: after the call it refreshes the raw pointers cached in the box
+extern "C" void verif_force_sentinel(const Boxed_Value &bv, std::shared_ptr<int> &sp) { auto s = bv.pointer_sentinel(sp); std::shared_ptr<int> &r = s; r.reset(); }
